@@ -15,11 +15,11 @@ theorem entryAt_putV_same (s : KV) (i ver : Nat) (tk val : Bytes) (hi : U32 i) (
     entryAt (putV s i ver tk val) i tk ver = some (.val ver) := by
   have hne : dataKey i ver 0 tk false ≠ dataKey i ver 0 tk true :=
     dataKey_ne_of hi hv hi hv (by simp)
-  simp [entryAt, putV, KV.set, KV.del, hne]
+  simp [entryAt, putV, Gen.storePutClearsTombstone, KV.set, KV.del, hne]
 
 theorem entryAt_delV_same (s : KV) (i ver : Nat) (tk : Bytes) :
     entryAt (delV s i ver tk) i tk ver = some .tomb := by
-  simp [entryAt, delV, KV.set, KV.del]
+  simp [entryAt, delV, Gen.storeDeleteWritesTombstone, KV.set, KV.del]
 
 theorem entryAt_putV_other (s : KV) (i ver i' ver' : Nat) (tk tk' val : Bytes)
     (hi : U32 i) (hv : U32 ver) (hi' : U32 i') (hv' : U32 ver')
@@ -27,7 +27,7 @@ theorem entryAt_putV_other (s : KV) (i ver i' ver' : Nat) (tk tk' val : Bytes)
     entryAt (putV s i ver tk val) i' tk' ver' = entryAt s i' tk' ver' := by
   have n1 : ∀ m m', dataKey i' ver' 0 tk' m ≠ dataKey i ver 0 tk m' := fun m m' =>
     dataKey_ne_of hi' hv' hi hv (fun hh => h ⟨hh.1, hh.2.1, hh.2.2.1⟩)
-  simp [entryAt, putV, KV.set, KV.del, n1]
+  simp [entryAt, putV, Gen.storePutClearsTombstone, KV.set, KV.del, n1]
 
 theorem entryAt_delV_other (s : KV) (i ver i' ver' : Nat) (tk tk' : Bytes)
     (hi : U32 i) (hv : U32 ver) (hi' : U32 i') (hv' : U32 ver')
@@ -35,7 +35,7 @@ theorem entryAt_delV_other (s : KV) (i ver i' ver' : Nat) (tk tk' : Bytes)
     entryAt (delV s i ver tk) i' tk' ver' = entryAt s i' tk' ver' := by
   have n1 : ∀ m m', dataKey i' ver' 0 tk' m ≠ dataKey i ver 0 tk m' := fun m m' =>
     dataKey_ne_of hi' hv' hi hv (fun hh => h ⟨hh.1, hh.2.1, hh.2.2.1⟩)
-  simp [entryAt, delV, KV.set, KV.del, n1]
+  simp [entryAt, delV, Gen.storeDeleteWritesTombstone, KV.set, KV.del, n1]
 
 theorem raw_putV_other (s : KV) (i ver i' ver' : Nat) (tk tk' val : Bytes) (m : Bool)
     (hi : U32 i) (hv : U32 ver) (hi' : U32 i') (hv' : U32 ver')
@@ -43,7 +43,7 @@ theorem raw_putV_other (s : KV) (i ver i' ver' : Nat) (tk tk' val : Bytes) (m : 
     putV s i ver tk val (dataKey i' ver' 0 tk' m) = s (dataKey i' ver' 0 tk' m) := by
   have n1 : ∀ m', dataKey i' ver' 0 tk' m ≠ dataKey i ver 0 tk m' := fun m' =>
     dataKey_ne_of hi' hv' hi hv (fun hh => h ⟨hh.1, hh.2.1, hh.2.2.1⟩)
-  simp [putV, KV.set, KV.del, n1]
+  simp [putV, Gen.storePutClearsTombstone, KV.set, KV.del, n1]
 
 theorem raw_delV_other (s : KV) (i ver i' ver' : Nat) (tk tk' : Bytes) (m : Bool)
     (hi : U32 i) (hv : U32 ver) (hi' : U32 i') (hv' : U32 ver')
@@ -51,6 +51,6 @@ theorem raw_delV_other (s : KV) (i ver i' ver' : Nat) (tk tk' : Bytes) (m : Bool
     delV s i ver tk (dataKey i' ver' 0 tk' m) = s (dataKey i' ver' 0 tk' m) := by
   have n1 : ∀ m', dataKey i' ver' 0 tk' m ≠ dataKey i ver 0 tk m' := fun m' =>
     dataKey_ne_of hi' hv' hi hv (fun hh => h ⟨hh.1, hh.2.1, hh.2.2.1⟩)
-  simp [delV, KV.set, KV.del, n1]
+  simp [delV, Gen.storeDeleteWritesTombstone, KV.set, KV.del, n1]
 
 end Dvid.Store
